@@ -298,7 +298,8 @@ def gen_file(rng, name, malformed=False):
     is_rs = name in RS_NAMES
     if is_rs and r < (0.45 if malformed else 0.12):
         return {"t": "f", "name": name, "kind": "unparsable", "raw": rng.choice(UNPARSABLE)}
-    if r > (0.90 if malformed else 0.975):
+    # non-UTF-8 contents: since the repair of C03-2 an ordinary input (the file is skipped)
+    if r > (0.85 if malformed else 0.94):
         return {"t": "f", "name": name, "kind": "notutf8", "hex": rng.choice(NOTUTF8).hex()}
     names = list(FN_NAMES)
     rng.shuffle(names)
